@@ -483,7 +483,7 @@ def c11(ctx):
     files.append(f3)
     ctx.exhaustive = True
     for f in files:
-        res, total, chunks = vlib.replay(ctx, "record-registry", f, keep=True, env={"VH_WALL_LIMIT": "900"})
+        res, total, chunks = vlib.replay(ctx, "record-registry", f, keep=True, env={"VH_WALL_LIMIT": "900", "VH_CASE_LIMIT": "600"})
         bad = [r for r in res if not r.get("ok")]
         cases = vlib.read_lines(f, [r["i"] for r in bad[:50]]) if f != f3 else {}
         for r in bad:
@@ -1104,21 +1104,6 @@ def tcp_pipeline(ctx, owner, n_quick=160, n_thorough=6000, extra_files=()):
                             ctx.add_sample([json.loads(x) for x in run[:14]])
 
 
-@check("C05", "model_checking")
-def c05(ctx):
-    ctx.rule = ("TCP programs (1-3 connections over 1-2 acceptors, three accept forms, scatter/gather writes of random "
-                "sizes, async_read_some and wait+read_some readers with random buffer sizes, close by either side, NAT, "
-                "path MTUs, finite queues, injected drops/delays of chosen transmissions of the first segments) executed on "
-                "real sockets; the trace (API calls, completions with payload located in the PRF stream, first-hop and "
-                "last-hop segments, drop notifications, ACKs) is validated by TLC against Tcp.tla; non-trivial = run with "
-                "a drop or an EOF; distinct by trace text")
-    ctx.assumptions = ["payload bytes are a PRF of (connection, direction, offset); the harness locates every delivered block "
-                       "in the streams and logs (stream, offset); the specification decides whether that is the next block",
-                       "packet -> connection mapping from the channel end points seen in the SYN+ACK"]
-    vlib.tlc_mc(ctx, "MCTcpFlow.tla", "MC_TcpFlow.cfg", timeout=900)
-    tcp_pipeline(ctx, "C05")
-
-
 def tcp_drop_patterns(path):
     """Exhaustive drop / delay patterns over the first segments of a single connection
     (every subset of the first 4 data segments dropped once, each optionally twice, or delayed),
@@ -1155,9 +1140,6 @@ def tcp_drop_patterns(path):
     return n
 
 
-_c05_orig = c05
-
-
 @check("C05", "model_checking")
 def c05b(ctx):
     ctx.rule = ("TCP programs (1-3 connections over 1-2 acceptors, three accept forms, scatter/gather writes of random "
@@ -1171,6 +1153,10 @@ def c05b(ctx):
                        "in the streams and logs (stream, offset); the specification decides whether that is the next block",
                        "packet -> connection mapping from the channel end points seen in the SYN+ACK"]
     vlib.tlc_mc(ctx, "MCTcpFlow.tla", "MC_TcpFlow.cfg", timeout=900)
+    # the service specification itself as a closed model: stream invariants (prefix, consecutive offsets, MSS, EOF last)
+    # in every reachable state of one connection with data, one drop, partial reads, close/cancel at any moment
+    vlib.tlc_mc(ctx, "MCTcp.tla", "MC_Tcp_stream.cfg" if ctx.tier == "quick" else "MC_Tcp_stream_t.cfg", timeout=2400,
+                ignore_actions=("AConnectOk",))
     f = ctx.path("ts_patterns.ndjson")
     tcp_drop_patterns(f)
     tcp_pipeline(ctx, "C05", n_quick=300, extra_files=[f])
@@ -1199,6 +1185,11 @@ def c07(ctx):
                 "positive delay with no usable connection, the endpoint equations and that delivered bytes belong to the "
                 "stream of the same pair; non-trivial = >= 2 connects or a refusal; distinct by trace")
     ctx.assumptions = ["connectors are bound explicitly before connecting (the implicit bind is C11's)"]
+    # the pairing part of the service specification as a closed model: two connectors, three accepts of the three forms,
+    # superseded / cancelled accepts, a closed acceptor, a dead target: pairing invariants in every reachable state
+    vlib.tlc_mc(ctx, "MCTcp.tla", "MC_Tcp_pair.cfg", timeout=900,
+                ignore_actions=("AConnectOk", "AAborted", "ACancel", "ADrop", "ARead", "AReadData", "AReadEof", "AReady", "AResend",
+                                "ASend", "AWrite", "AWriteDone", "AWriteFailed"))
     tcp_pipeline(ctx, "C07", n_quick=400)
 
 
